@@ -24,6 +24,7 @@ const (
 type ctype struct {
 	k    ckind
 	elem *ctype
+	rec  *recInfo // structs.go: tRecs only
 }
 
 func (c ctype) String() string {
@@ -44,6 +45,8 @@ func (c ctype) String() string {
 		return "gobuf"
 	case tErr: // errors.go
 		return "go_error"
+	case tRecs: // structs.go
+		return "(list " + c.rec.elemString() + ")"
 	}
 	return "?"
 }
@@ -64,6 +67,8 @@ func (c ctype) zero() string {
 		return "buf_nil"
 	case tErr: // errors.go
 		return "go_nil_error"
+	case tRecs: // structs.go
+		return "[]"
 	}
 	return "?"
 }
@@ -115,6 +120,9 @@ func (f *fnCtx) isBufVar(o types.Object) bool {
 
 func (f *fnCtx) tryCtype(T types.Type) (ctype, bool) {
 	if c, ok := errCtype(T); ok { // errors.go: the predeclared type error
+		return c, true
+	}
+	if c, ok := f.recCtype(T); ok { // structs.go: []T, T a struct of basic-typed fields
 		return c, true
 	}
 	if types.Identical(T, types.Typ[types.Uint8]) {
